@@ -185,6 +185,13 @@ def families(rng):
     fams.append(('U1 rank 3: label / dualness / size / charge', members,
                  [['fuse', [[0, 1]]], ['fuse', [[1, 2]]], ['fuse', [[2, 1]]], ['fuse', [[0, 1, 2]]],
                   ['tdot', [0, 1], [0, 1]], ['reshape_merge', 1], ['fuse_unfuse', [[0, 2]]]]))
+    # --- U1, rank 3: the labels -1 and -2 (equal under Python's builtin hash) in otherwise identical arrays
+    tb = [[(-1, sz()), (0, sz())], [(0, sz()), (1, sz())], [(0, sz()), (1, sz())]]
+    tb2 = [[(-2 if c == -1 else c, d) for c, d in tb[0]], tb[1], tb[2]]
+    dl = [False, False, False]
+    members = [mkspec('U1', tb, dl, 0, sectors=[(-1, 0, 1), (-1, 1, 0)]), mkspec('U1', tb2, dl, -1, sectors=[(-2, 0, 1), (-2, 1, 0)])]
+    fams.append(('U1 rank 3: charge labels -1 / -2', members,
+                 [['fuse', [[0, 1]]], ['fuse', [[0, 1, 2]]], ['fuse', [[2, 0]]], ['fuse_unfuse', [[0, 1]]], ['tdot', [0, 1], [0, 1]]]))
     # --- Z2Z2 rank 3
     cz = [(0, 0), (0, 1), (1, 0), (1, 1)]
     tables = [[(c, sz()) for c in rng.sample(cz, 3)] for _ in range(3)]
